@@ -113,6 +113,8 @@ class Fock(BaseState):
         state is in state_vector, then the state is expanded
         to the state_matrix
         """
+        from photon_weave.state.envelope import Envelope
+
         if isinstance(self.index, int):
             assert isinstance(self.envelope, Envelope)
             self.envelope.expand()
@@ -266,6 +268,8 @@ class Fock(BaseState):
         Dict[BaseState, int]
             Dictionary of outcomes
         """
+        from photon_weave.state.envelope import Envelope
+
         if isinstance(self.index, int):
             assert isinstance(self.envelope, Envelope)
             return self.envelope.measure(
